@@ -61,7 +61,7 @@ struct Step {
     // send
     Bytes data; SegMode seg = SEG_RAND; uint64_t segMax = 0; std::vector<uint64_t> segAt; uint64_t paceLo = 0, paceHi = 0;
     // expect
-    ExpectKind ex = EX_ANY; uint64_t n = 0; uint64_t timeoutUs = 0;
+    ExpectKind ex = EX_ANY; uint64_t n = 0; uint64_t timeoutUs = 0; bool soft = false;
     // await/label
     std::string flag;
     // wait / readpace
